@@ -303,9 +303,15 @@ func runDevJob(job *dJob, tmp string, rec *dLineRec) *dOut {
 	url := fmt.Sprintf("http://127.0.0.1:%d/version", port)
 	fresh := &http.Client{Transport: &http.Transport{DisableKeepAlives: true}, Timeout: 3 * time.Second}
 	keep := &http.Client{Transport: &http.Transport{MaxIdleConnsPerHost: 2}, Timeout: 3 * time.Second}
+	slowClient := &http.Client{Transport: &http.Transport{DisableKeepAlives: true}, Timeout: 20 * time.Second}
 	probe := func(c *http.Client, k bool) dProbe {
 		p := dProbe{T0: now(), Keep: k}
 		resp, err := c.Get(url)
+		for a := 0; a < 2 && err != nil && (os.IsTimeout(err) || strings.Contains(err.Error(), "Timeout") || strings.Contains(err.Error(), "deadline exceeded")); a++ {
+			// no answer within 3 s says nothing on an oversubscribed machine: only a refused / reset connection, or
+			// silence for 20 s twice over, counts as "down" (the probe's interval T0..T1 grows accordingly)
+			resp, err = slowClient.Get(url)
+		}
 		if err != nil {
 			p.T1 = now()
 			p.Err = err.Error()
